@@ -690,6 +690,32 @@ def a7(prog, ctx):
                      "copy of %s %s" % (render(st.children[1]), "under further conditions" if other_conds else "not filtered by the marker only"), key="groups-filter")
     else:
         ctx.fail("A7", "econf_getGroups lists exactly the named sections", g.where, "no copy into the result", key="groups-filter")
+    # ECONF_NOGROUP is the answer for an object that has no section at all - not for one with a single section
+    ng = [r for r in query.returns_of_constant(g, "ECONF_NOGROUP")]
+    for r in ng:
+        lits = [l for l in cfg.required_literals(cfg.block_of(r)) if l is not None and "group_count" in l.atom]
+        verdict = None
+        for l in lits:
+            c_l, c_r = l.lhs.const_value() if l.kind in ("lt", "eq") else None, l.rhs.const_value() if l.kind in ("lt", "eq") else None
+            if l.kind == "truth" and not l.pol:
+                verdict = verdict or "ok"
+            elif l.kind == "eq" and l.pol and 0 in (c_l, c_r):
+                verdict = verdict or "ok"
+            elif l.kind == "lt" and not l.pol and c_l == 0:            # !(0 < count)  = count <= 0
+                verdict = verdict or "ok"
+            elif l.kind == "lt" and l.pol and c_r == 1:                # count < 1
+                verdict = verdict or "ok"
+            elif l.kind == "lt" and ((not l.pol and isinstance(c_l, int) and c_l >= 1) or (l.pol and isinstance(c_r, int) and c_r >= 2)):
+                verdict = "fail"
+                bad_l = l
+        if verdict == "ok":
+            ctx.ok("A7", "econf_getGroups answers ECONF_NOGROUP only without any section", r.where, "behind group_count <= 0")
+        elif verdict == "fail":
+            ctx.fail("A7", "econf_getGroups answers ECONF_NOGROUP only without any section", r.where,
+                     "ECONF_NOGROUP is returned under `%s`: an object whose only section is a real one (a parsed file with one section and no group-less "
+                     "key) is reported to have none" % bad_l, key="nogroup-threshold")
+        elif lits:
+            ctx.inconclusive("A7", "econf_getGroups answers ECONF_NOGROUP only without any section", r.where, "test %s not understood" % lits[0])
     # setGroupList: append only on miss, at the end
     from sa import arrays
     s = prog.fn("setGroupList")
